@@ -81,6 +81,24 @@ fn flat_item(kind: &str, i: u64) -> String {
         "fwd-group" => format!("<g class=\"m\"><rect xy=\"#last|v {}\" wh=\"1\"/></g>", i),
         "reuse" => format!("<reuse class=\"m\" href=\"#tpl\" x=\"{}\" y=\"3\"/>", i * 2),
         "var" => format!("<var q=\"{i}\"/><rect class=\"m\" xy=\"{} 0\" wh=\"1\"/>", i * 2),
+        "svg-xmlns" => format!("<svg class=\"m\" xmlns=\"http://www.w3.org/2000/svg\"><rect x=\"{}\" width=\"1\" height=\"1\"/></svg>", i * 2),
+        "svg-xmlns-empty" => "<svg class=\"m\" xmlns=\"http://www.w3.org/2000/svg\"/>".to_string(),
+        "marker" => format!("<marker class=\"m\" id=\"mk{i}\"><path d=\"M 0 0 L 1 1\"/></marker>"),
+        "pattern" => format!("<pattern class=\"m\" id=\"pt{i}\" width=\"2\" height=\"2\"><rect width=\"1\" height=\"1\"/></pattern>"),
+        "mask" => format!("<mask class=\"m\" id=\"ms{i}\"><rect width=\"1\" height=\"1\"/></mask>"),
+        "filter" => format!("<filter class=\"m\" id=\"fl{i}\"><feOffset dx=\"1\" dy=\"1\"/></filter>"),
+        "switch" => format!("<switch class=\"m\"><rect xy=\"{} 0\" wh=\"1\"/></switch>", i * 2),
+        "style-el" => "<style class=\"m\">rect {{ fill: red; }}</style>".replace("{{", "{").replace("}}", "}"),
+        "desc" => "<desc class=\"m\">d</desc>".to_string(),
+        "use" => format!("<use class=\"m\" href=\"#tpl\" x=\"{}\" y=\"5\"/>", i * 2),
+        "point" => format!("<point class=\"m\" xy=\"{} 1\"/>", i),
+        "line-label" => format!("<line class=\"m\" xy1=\"{} 0\" xy2=\"{} 5\" text=\"t\"/>", i * 2, i * 2 + 1),
+        "g-text-child" => format!("<g class=\"m\"><text x=\"{i}\" y=\"1\">t</text></g>"),
+        "text-multiline" => format!("<text class=\"m\" x=\"1\" y=\"{i}\" text=\"a\\nb\"/>"),
+        "box" => format!("<box class=\"m\" xy=\"{} 0\" wh=\"1\"/>", i * 2),
+        "comment" => format!("<!-- c{i} --><rect class=\"m\" xy=\"{} 0\" wh=\"1\"/>", i * 2),
+        "for1" => format!("<for data=\"1\" var=\"z\"><rect class=\"m\" xy=\"{} 0\" wh=\"1\"/></for>", i * 2),
+        "defaults" => format!("<defaults><rect rx=\"1\"/></defaults><rect class=\"m\" xy=\"{} 0\" wh=\"1\"/>", i * 2),
         _ => format!("<rect class=\"m\" xy=\"{} 0\" wh=\"1\"/>", i * 2),
     }
 }
@@ -105,6 +123,24 @@ const FLAT_KINDS: &[&str] = &[
     "fwd-group",
     "reuse",
     "var",
+    "svg-xmlns",
+    "svg-xmlns-empty",
+    "marker",
+    "pattern",
+    "mask",
+    "filter",
+    "switch",
+    "style-el",
+    "desc",
+    "use",
+    "point",
+    "line-label",
+    "g-text-child",
+    "text-multiline",
+    "box",
+    "comment",
+    "for1",
+    "defaults",
 ];
 
 impl Engine for C17 {
@@ -201,7 +237,7 @@ impl Engine for C17 {
                     items.push('\n');
                 }
                 let mut extra = String::new();
-                if kind == "reuse" {
+                if kind == "reuse" || kind == "use" {
                     extra.push_str("<specs><rect id=\"tpl\" wh=\"1\"/></specs>");
                 }
                 let tail = if kind.starts_with("fwd") {
@@ -214,7 +250,8 @@ impl Engine for C17 {
                     doc: format!("<svg>{prefix}{extra}{open}\n{items}{close}{tail}</svg>"),
                     cfg,
                     expect_ok: true,
-                    expect_marks: Some(m),
+                    // invisible helper elements leave nothing in the output to count
+                    expect_marks: if kind == "point" || kind == "box" { None } else { Some(m) },
                     expect_text: None,
                     params: format!("L={l} siblings={m} wrap={wrap} via_config={via_config}"),
                 }
